@@ -8,6 +8,10 @@ EventQueue::ProcessEvent, EventsFilter::Push, ConsoleHandler::ExecuteScriptHelpe
 import random, os, subprocess, tempfile, shutil, binascii, collections
 from . import core
 
+# the failing-input search of the runner (after a broken proof / correspondence without an oracle hit): bounded, and its
+# populations (tier 'search') are of quick-tier size, ordered by what the MODEL predicts to fail (see generate())
+os.environ.setdefault('VERIF_SEARCH_S', '60')
+
 PID = 'C19'
 HEADER = []
 LIBS = 'base,config,remote,icinga,methods,checker,notification'
@@ -17,6 +21,12 @@ RULE = ('every statement form x {filter, event, inbox, console} x {marker probe,
         'native callbacks}; every UNSAFE live function as callback of every callback-taking safe Array method through GetFilterTargets '
         '(without and with a permission filter) and event filters; every live type as constructor; every no_user_view field of every '
         'type with a live object, dotted and as bare identifier after `using <object>`; hidden globals. '
+        'WRITERS x POSITIONS x LEFT-HAND SIDES: Set with every operator (= += -= *= /= %= ^= &= |=) x 19 left-hand sides (bare identifier, string key, this.x, '
+        'locals.x, globals.x, get_object(..).attr, get_objects(T)[0].vars.k, live container attributes, *ref, array-literal root) and const / var / namespace / '
+        'function / use / for / while / apply / object / template / include / import / library / using, as statement, dictionary member (direct, after/before a '
+        'sibling, nested 2-3 deep, inside an array), if / else / else-if / try / except / lambda / closure / loop / namespace bodies, the dictionary literal placed in 44 '
+        'expression contexts (array element, argument of natives, conditions, both sides of && || ?: in ==, receiver, index, throw, use, using, deref, '
+        'constructor argument, callback and receiver element of every higher-order safe native): any snapshot difference = changed:<construct>@<position>. '
         'PURITY: every function registered side-effect-free x every argument position and `this` x 28 live shared containers/objects (unsorted / '
         'duplicate / nested / empty / length-1 arrays, arrays of dictionaries and of arrays, dictionaries, namespaces, config objects, a type, a '
         'function, a reference, as attributes of the Host - vars.*, groups - and as globals) x fillers for the other positions, every '
@@ -34,7 +44,10 @@ TRUSTED = ['model: coq/Sandbox/SbModel.v (effect-level semantics, one constructo
            '(cross-checked: declared const in the headers, own bodies analysed), PURE_CALLEES (by name: Utility::Match, JsonEncode, Array::FromSet, '
            'ConfigItem::GetItems, std:: algorithms, ...), FRESH_METHODS; declarations recognised syntactically; macros not expanded; implicit '
            'conversions (Value -> String) not seen; self-test of 5 pure and 19 mutating idioms on every run',
-           'source facts re-extracted each run by tools/facts_c19.py (regular expressions over expression.cpp, vmops.hpp, *-script.cpp, '
+           'conditional sandbox guards (`Sandboxed && <cond>`): not counted as guards; the one condition the model interprets is a bool member of SetExpression whose only '
+           'assignment is `= (scopeSpec == ScopeThis)` in BindToScope (recognised syntactically) = "member of a dictionary literal"; sb_bind_scope is a hand transcription of '
+           'BindToScope, tied by the facts f_sb_bind_to_scope_shape / f_sb_dict_members_bound and by the writer-position probes',
+           'source facts re-extracted each run by tools/facts_c19.py (regular expressions over expression.cpp, config_parser.yy, vmops.hpp, *-script.cpp, '
            'REGISTER_*FUNCTION, *.ti, object.cpp, reference.cpp, scriptframe.cpp, filterutility/eventqueue/consolehandler.cpp) -> coq/Facts/Facts_c19.v',
            'harness/ops_sb.cpp: deep snapshot (global namespace recursively, all fields of all config objects, config item registry, '
            'apply rules, type prototypes, scratch directory listing+SHA1, console session locals)']
@@ -265,12 +278,34 @@ def purity_probes(fn, rnd, tier, fns):
 
 # ---------------------------------------------------------------- hidden reads through natives
 USER = 'get_object(ApiUser, "sbu")'
+LSN = 'get_object(ApiListener, "sbapi")'
+# NOTE: a dictionary literal `{ u = <object> }` is an assignment and is refused in a sandbox, so containers that hold the objects
+# are part of the fixture (harness: SbSecD, SbSecA, SbSecNest, SbSecRefs - dictionaries / arrays / nested ones holding the ApiUser,
+# the ApiListener and references to their hidden fields)
 SECRET_ARGS = [('ApiUser', USER), ('Reference', '(&%s.password)' % USER), ('Array', '[ %s ]' % USER),
-               ('Dictionary', '{ u = %s }' % USER), ('Array', '[ &%s.password ]' % USER), ('Array', 'get_objects(ApiUser)'),
+               ('Array', '[ &%s.password ]' % USER), ('Array', 'get_objects(ApiUser)'),
                ('Reference', '(&%s.password_hash)' % USER),
-               ('ApiListener', 'get_object(ApiListener, "sbapi")'), ('Reference', '(&get_object(ApiListener, "sbapi").ticket_salt)'),
-               ('Array', '[ &get_object(ApiListener, "sbapi").ticket_salt, get_object(ApiListener, "sbapi") ]')]
+               ('ApiListener', LSN), ('Reference', '(&%s.ticket_salt)' % LSN),
+               ('Array', '[ &%s.ticket_salt, %s ]' % (LSN, LSN)), ('Array', 'get_objects(ApiListener)'),
+               ('Array', '[ [ %s ], [ [ %s ] ] ]' % (USER, LSN)),
+               ('Dictionary', 'SbSecD'), ('Array', 'SbSecA'), ('Dictionary', 'SbSecNest'), ('Dictionary', 'SbSecRefs'),
+               ('Array', 'SbSecNest.a.b'), ('Array', 'SbSecD.values()'), ('Array', '[ SbSecD, SbSecA ]')]
 SECRET_PAT = '"*sbS*"'          # matches the password (sbSECRETpw) and the ticket salt field (sbSALTfld)
+
+
+# (mode, template over the call %C, truth of the result means a leak)
+SECOND_STAGE = [
+    ('console', '%C', 0), ('console', 'Json.encode(%C)', 0), ('filter', 'match(%P, Json.encode(%C))', 1),
+    ('rot', '(%C) in [ "sbSECRETpw", "sbSALTfld" ]', 1),
+    ('console', 'string(%C)', 0), ('console', '(%C).to_string()', 0), ('console', 'Json.encode([ %C ])', 0),
+    ('console', 'Json.decode(Json.encode(%C))', 0), ('filter', 'match(%P, string(%C))', 1),
+    ('filter', 'match(%P, Json.encode(Json.decode(Json.encode(%C))))', 1),
+    ('console', 'Json.encode(keys(%C))', 0), ('console', '(%C).values()', 0), ('console', '(%C).clone()', 0),
+    ('console', 'Json.encode((%C).shallow_clone())', 0), ('console', '[ %C ].map(Json.encode)', 0),
+    ('console', '[ %C ].map(string).join(",")', 0), ('console', 'typeof(%C)', 0),
+    ('rot', 'Json.decode(Json.encode(%C)).password == "sbSECRETpw" || Json.decode(Json.encode(%C)).ticket_salt == "sbSALTfld"', 1),
+    ('filter', '"sbSECRETpw" in (%C) || "sbSALTfld" in (%C)', 1),
+]
 
 
 def hidden_native_probes(fn, rnd, tier, fns):
@@ -313,17 +348,113 @@ def hidden_native_probes(fn, rnd, tier, fns):
         if call in seen:
             continue
         seen.add(call)
-        form = (i + rnd.randrange(4)) % 4 if tier == 'quick' else -1
-        if form in (0, -1):
-            out.append(('console', call, desc, 0))
-        if form in (1, -1):
-            out.append(('console', 'Json.encode(%s)' % call, desc, 0))
-        if form in (2, -1):
-            out.append(('filter', 'match(%s, Json.encode(%s))' % (SECRET_PAT, call), desc, 1))
-        if form in (3, -1):
-            out.append((('event', 'filter', 'inbox')[i % 3], '(%s) in [ "sbSECRETpw", "sbSALTfld" ]' % call, desc, 1))
+        # what comes back is handed back raw, or fed to a SECOND native that serialises / stringifies / walks it
+        form = (i + rnd.randrange(len(SECOND_STAGE))) % len(SECOND_STAGE) if tier == 'quick' else -1
+        for k_, (mode, tmpl, leak) in enumerate(SECOND_STAGE):
+            if form in (k_, -1):
+                if mode == 'rot':
+                    mode = ('event', 'filter', 'inbox')[i % 3]
+                out.append((mode, tmpl.replace('%P', SECRET_PAT).replace('%C', call), desc, leak))
     return out
 
+
+
+# ---------------------------------------------------------------- writers x syntactic positions x left-hand sides
+# Every WRITER construct, placed in every syntactic position an expression can occupy, with every kind of left-hand side.
+# Assignments and the other statements are `lterm`s: they can only stand in a statement list - top level, `{ }` used as a
+# value (dictionary literal: the members run when the literal is evaluated, with `this` = the new dictionary, after
+# BindToScope(.., ScopeThis)), and the scopes of if / else / try / except / while / for / function / namespace.  A dictionary
+# literal (and `if`) is an rterm, so it carries a writer into every expression position.
+
+SET_OPS = [('set', '='), ('add', '+='), ('sub', '-='), ('mul', '*='), ('div', '/='), ('mod', '%='), ('xor', '^='), ('and', '&='), ('or', '|=')]
+
+# left-hand sides: (shape, text, right-hand side).  @H = `host` in filter mode (bound by FilterUtility), else get_object(..)
+W_LHS = [
+    ('globals_new', 'globals.SbW@', '5'), ('globals_num', 'globals.SbNum', '5'),
+    ('ident_new', 'sbx@', '5'), ('ident_global', 'SbNum', '5'), ('strkey', '"sbk"', '5'),
+    ('this', 'this.sbx', '5'), ('locals', 'locals.sbx@', '5'),
+    ('call_attr', 'get_object(Host, "sbh").display_name', '"sbw"'), ('call_vars', 'get_object(Host, "sbh").vars.num', '5'),
+    ('call_idx_vars', 'get_objects(Host)[0].vars.num', '5'), ('call_idx_new', 'get_objects(Host)[0].vars.added@', 'true'),
+    ('live_attr', 'host.vars.num', '5'), ('live_dict', 'SbDict.a', '5'), ('live_arr', 'SbArr[0]', '5'), ('live_ns', 'SbNs.x', '5'),
+    ('deref', '*(&globals.SbNum)', '5'), ('deref_call', '*(&get_object(Host, "sbh").vars.num)', '5'),
+    ('nested_lhs', 'globals.SbNest.d.z', '5'), ('array_root', '[ SbNest.d ][0].z', '5'),
+]
+# operators that make sense for a left-hand side (a string attribute only takes `=` and `+=`, a new key of a live dictionary `=`)
+W_LHS_OPS = {'call_attr': ('set', 'add'), 'call_idx_new': ('set',)}
+# the other writers: (name, text)
+W_OTHER = [
+    ('const', 'const SbWC@ = 1'), ('var', 'var sbv@ = 1'), ('namespace', 'namespace SbWN@ { }'),
+    ('function', 'function sbwf@() { }'), ('function_use', 'function sbwf@() use(q = 1) { }'),
+    ('for', 'for (q in [ 1 ]) { }'), ('for_kv', 'for (k => v in SbDict) { }'), ('while', 'while (false) { }'),
+    ('apply', 'apply Service "sbwa@" to Host { check_command = "sbcmd"; assign where true }'),
+    ('object', 'object Host "sbwo@" { check_command = "sbcmd" }'), ('template', 'template Host "sbwt@" { }'),
+    ('include', 'include "/nonexistent/sbw@.conf"'), ('include_recursive', 'include_recursive "/nonexistent/sbw@"'),
+    ('import', 'import "sbtmpl"'), ('library', 'library "methods"'), ('using', 'using SbNs'),
+]
+# how the writer W becomes a statement or an rterm R
+W_FORMS = [
+    ('stmt', '%s', False), ('dict', '{ %s }', True), ('dict_after', '{ sba = 1; %s }', True), ('dict_before', '{ %s; sbz = 2 }', True),
+    ('dict_nested', '{ sba = { %s } }', True), ('dict_nested_arr', '{ sba = [ { %s } ] }', True), ('dict3', '{ sba = { sbb = { %s } } }', True),
+    ('if_true', 'if (true) { %s }', True), ('if_else', 'if (false) { 0 } else { %s }', True),
+    ('else_if', 'if (false) { 0 } else if (true) { %s }', True),
+    ('try_body', 'try { %s } except { 0 }', False), ('try_except', 'try { throw "x" } except { %s }', False),
+    ('lambda_call', '(() => { %s })()', True), ('closure', '{{ %s }}', True), ('function_body', 'function() { %s }', True),
+    ('lambda_map', '[ 1 ].map(x => { %s })', True), ('while_body', 'while (true) { %s; break }', False),
+    ('for_body', 'for (q in [ 1 ]) { %s }', False), ('namespace_body', 'namespace SbWNb@ { %s }', False),
+]
+# where the rterm R stands
+W_CTXS = [
+    ('array_elem', '[ 1, %s ]'), ('arg_len', 'len(%s)'), ('arg_json', 'Json.encode(%s)'), ('arg_typeof', 'typeof(%s)'), ('arg_keys', 'keys(%s)'),
+    ('arg_match2', 'match("*", %s)'), ('arg_union2', 'union([ 1 ], %s)'),
+    ('cond_if', 'if (%s) { 1 }'), ('cond_ternary', '%s ? 1 : 2'), ('ternary_then', 'true ? %s : 1'), ('ternary_else', 'false ? 1 : %s'),
+    ('and_rhs', 'true && %s'), ('or_rhs', 'false || %s'), ('and_lhs', '%s && true'), ('or_lhs', '%s || true'),
+    ('not', '!%s'), ('eq', '%s == 1'), ('plus', '1 + %s'), ('in_lhs', '%s in [ 1 ]'), ('in_rhs', '1 in %s'),
+    ('receiver_len', '%s.len()'), ('receiver_keys', '%s.keys()'), ('receiver_contains', '%s.contains("a")'),
+    ('index', 'SbDict[%s]'), ('member_of', '%s.a'), ('throw', 'throw %s'), ('use', 'function() use(q = %s) { 1 }'),
+    ('using', 'using %s\nsbfoo'), ('deref', '*%s'), ('ctor', 'String(%s)'), ('call_arg_obj', 'get_object(Host, %s)'),
+    ('try', 'try { %s } except { 0 }'),
+]
+W_MODES = ['filter', 'console', 'event', 'inbox', 'filter', 'console', 'filterperm', 'event']
+
+
+def writer_position_probes(fns, rnd, tier):
+    """-> list of (mode, code, desc)"""
+    hof = sorted(f['path'].split('.', 1)[1] for f in fns if f['safe'] and f['path'].startswith('@Array.') and
+                 any(a in f['args'].split(',') for a in ('func', 'less_cmp', 'reduce', 'callback', 'cmp')))
+    ctxs = list(W_CTXS)
+    for m_ in hof:      # every higher-order safe native: R as the callback argument, and R as an element of the receiver
+        ctxs.append(('cb_' + m_, '[ 1, 2 ].%s(%%s)' % m_))
+        ctxs.append(('recv_' + m_, '[ %%s ].%s(bool)' % m_))
+    placements = [(f, 'none', ft) for f, ft, _ in W_FORMS]
+    placements += [('dict', c, ct.replace('%s', '{ %s }')) for c, ct in ctxs]
+    for f, ft, is_rterm in W_FORMS:
+        if is_rterm and f not in ('stmt', 'dict'):
+            for c in ('array_elem', 'arg_json', 'cond_if', 'and_rhs', 'cb_map', 'receiver_len'):
+                ct = dict(ctxs).get(c)
+                if ct:
+                    placements.append((f, c, ct.replace('%s', ft)))
+    writers = []
+    for shape, lt, rhs in W_LHS:
+        for opn, opt in SET_OPS:
+            if opn in W_LHS_OPS.get(shape, [o for o, _ in SET_OPS]):
+                writers.append(('set', opn, shape, '%s %s %s' % (lt, opt, rhs)))
+    for wn, wt in W_OTHER:
+        writers.append((wn, 'set', '-', wt))
+    out = []
+    k = 0
+    for w, opn, shape, wt in writers:
+        for form, ctx, pt in placements:
+            k += 1
+            # quick tier: every (left-hand side / writer, placement) with `=` and `+=`; the other operators on a seeded half
+            if tier in ('quick', 'search') and w == 'set' and opn not in ('set', 'add') and rnd.random() < 0.5:
+                continue
+            mode = W_MODES[(k + rnd.randrange(len(W_MODES))) % len(W_MODES)]
+            sh, text = shape, wt
+            if shape == 'live_attr' and not mode.startswith('filter'):
+                sh, text = 'call_vars', wt.replace('host.vars.num', 'get_object(Host, "sbh").vars.num')
+            code = pt.replace('%s', text)
+            out.append((mode, code, 'kind=wpos w=%s op=%s lhs=%s form=%s ctx=%s restore=1' % (w, opn, sh, form, ctx)))
+    return out
 
 _enum_cache = {}
 
@@ -401,7 +532,48 @@ def call_probes(fn, rnd, tier):
     return out
 
 
+def model_predicted_failures(cases):
+    """indices of the cases in which the extracted model, evaluated over the CURRENT source facts, predicts a write or a hidden
+    read (the known findings aside): on an unchanged tree none; after a source change that breaks a premise these are the
+    inputs on which the model's evaluator exhibits the consequence"""
+    if not os.path.exists(core.VMODEL):
+        return set()
+    wd = tempfile.mkdtemp(prefix='sbpred_', dir=core.B)
+    try:
+        tmp = [{'id': i + 1, 'lines': c['lines']} for i, c in enumerate(cases)]
+        got = core.run_model_shard((HEADER, tmp, wd, 0, 300))
+    except Exception:
+        return set()
+    finally:
+        shutil.rmtree(wd, ignore_errors=True)
+    bad = set()
+    for i, c in enumerate(cases):
+        if c['tags'].get('family') in ('hidden-global', 'console-returns-object', 'registry'):
+            continue
+        if any(l.startswith('sb_probe') and (' changed=1' in l or ' hidden=1' in l) for l in got.get(i + 1, [])):
+            bad.add(i)
+    return bad
+
+
 def generate(seed, tier):
+    """tier 'search' (the runner's failing-input search after a broken proof / correspondence): a population of quick-tier
+    size from another seed, the cases the MODEL predicts to fail first"""
+    search = tier == 'search'
+    if search:
+        tier = 'quick'
+    cases = _generate(seed, tier)
+    skip = [x for x in os.environ.get('VERIF_C19_SKIP_FAMILIES', '').split(',') if x]     # test knob: exercise the search path
+    if skip and not search:
+        cases = [c for c in cases if c['tags'].get('family') not in skip]
+    if search:
+        bad = model_predicted_failures(cases)
+        cases = [c for i, c in enumerate(cases) if i in bad] + [c for i, c in enumerate(cases) if i not in bad]
+        if cases:
+            cases[0]['tags']['model_predicted_failing_cases'] = len(bad)
+    return cases
+
+
+def _generate(seed, tier):
     rnd = random.Random(seed)
     fns, types, hidden = enumerate_live()
     cases = []
@@ -427,6 +599,13 @@ def generate(seed, tier):
                 code = fresh(tmpl) % (M if marker else fresh(plain))
                 lines.append(probe(k, mode, marker, code, 'kind=form form=%s' % form))
         add(lines, 'statement-form', form=form)
+    # 1b. WRITERS x POSITIONS x LEFT-HAND SIDES
+    ps = writer_position_probes(fns, rnd, tier)
+    for j in range(0, len(ps), 40):
+        lines = []
+        for i, (mode, code, desc) in enumerate(ps[j:j + 40]):
+            lines.append(probe(i + 1, mode, 0, fresh(code), desc))
+        add(lines, 'writer-position')
     # 2. every live function / prototype method
     skipped = []
     for fn in fns:
@@ -488,10 +667,29 @@ def generate(seed, tier):
             for mode in ('filter', 'event'):
                 k += 1
                 lines.append(probe(k, mode, 0, '%s.%s == "%s"' % (ox, h['field'], secret), desc, leak=1))
+            oxs = 'get_objects(%s)' % h['type']
             for code in ('(&%s.%s).get()' % (ox, h['field']), '*(&%s.%s)' % (ox, h['field']), 'Json.encode(%s)' % ox, 'string(%s)' % ox,
-                         '%s.to_string()' % ox, 'keys(%s)' % ox, '%s.clone()' % ox):
+                         '%s.to_string()' % ox, 'keys(%s)' % ox, '%s.clone()' % ox,
+                         # serialisers / stringifiers as readers: the object nested in containers, results fed to a second native
+                         'Json.encode([ %s ])' % ox, 'Json.encode([ [ %s ] ])' % ox, 'Json.encode(%s)' % oxs, 'string([ %s ])' % ox,
+                         '[ %s ].to_string()' % ox, '[ %s ].join(",")' % ox, '%s.map(Json.encode)' % oxs, '%s.map(string)' % oxs,
+                         '%s.map(typeof)' % oxs, 'Json.decode(Json.encode(%s))' % ox, 'Json.decode(Json.encode(%s)).%s' % (ox, h['field']),
+                         'Json.encode(%s.clone())' % ox, 'Json.encode(%s.shallow_clone())' % oxs, 'Json.encode(SbSecD)', 'Json.encode(SbSecA)',
+                         'Json.encode(SbSecNest)', 'Json.encode(SbSecRefs)', 'SbSecD.values()', 'SbSecD.to_string()', 'string(SbSecNest)',
+                         'Json.encode(SbSecD.values())', 'Json.encode(SbSecD.shallow_clone())', 'SbSecA.map(Json.encode)',
+                         'Json.encode(union(SbSecA, [ %s ]))' % ox, 'Json.encode(intersection(%s, %s))' % (oxs, oxs),
+                         'Json.encode(SbSecRefs.r.get())', 'SbSecRefs.a.map(r => r)'.replace('r => r', 'string'),
+                         'Json.encode(%s.__name)' % ox, 'parse_performance_data(Json.encode(%s))' % ox):
                 k += 1
                 lines.append(probe(k, 'console', 0, code, desc))
+            secret_q = '"%s"' % secret
+            for code in ('match("*%s*", Json.encode(%s))' % (secret[:5], ox), 'match("*%s*", Json.encode(%s))' % (secret[:5], oxs),
+                         'match("*%s*", string([ %s ]))' % (secret[:5], ox), 'Json.decode(Json.encode(%s)).%s == %s' % (ox, h['field'], secret_q),
+                         'match("*%s*", Json.encode(SbSecD))' % secret[:5], 'match("*%s*", Json.encode(SbSecNest))' % secret[:5],
+                         '%s in SbSecD.values()' % secret_q, 'match("*%s*", %s.map(Json.encode).join(","))' % (secret[:5], oxs)):
+                for mode in ('filter', 'event'):
+                    k += 1
+                    lines.append(probe(k, mode, 0, code, desc, leak=1))
     for j in range(0, len(lines), 25):
         add(lines[j:j + 25], 'hidden-field')
     # 4b. the same fields as BARE identifiers resolved through `using <live object>` (VMOps::FindVarImport)
@@ -648,6 +846,28 @@ def extra_stats(cases, impl):
                         pos_all[c['tags']['fn']].add(q)
                         if ok:
                             pos_ok[c['tags']['fn']].add(q)
+    # writers x positions x left-hand sides: every cell of the matrix must get past the PARSER (a cell that never compiles tests nothing)
+    cells, cells_ok, lhs_ok, plc = set(), set(), set(), set()
+    for c in cases:
+        if c['tags'].get('family') != 'writer-position':
+            continue
+        il = [l for l in impl.get(c['id'], []) if l.startswith('sb_probe')]
+        pl = [l for l in c['lines'] if l.startswith('sb_probe')]
+        for p, l in zip(pl, il):
+            t = dict(x.split('=', 1) for x in p.split() if '=' in x)
+            w = t.get('w') if t.get('w') != 'set' else 'set:' + t.get('lhs', '')
+            cell = (w, t.get('form'), t.get('ctx'))
+            cells.add(cell)
+            plc.add((t.get('form'), t.get('ctx')))
+            st['wpos_probes'] += 1
+            if ' i_compiles=1' in l:
+                st['wpos_compiled'] += 1
+                cells_ok.add(cell)
+            if ' i_res=ok' in l and ' mode=event ' not in l and ' mode=inbox ' not in l:
+                st['wpos_evaluated_without_error'] += 1         # e.g. swallowed by try/except, closures that are only built
+    st['wpos_cells_writer_x_placement'] = len(cells)
+    st['wpos_placements'] = len(plc)
+    st['wpos_cells_never_compiled'] = sorted('%s@%s.%s' % c for c in cells - cells_ok)[:40]
     st['purity_function_positions_probed'] = sum(len(v) for v in pos_all.values())
     st['purity_function_positions_with_successful_call'] = sum(len(v) for v in pos_ok.values())
     st['purity_functions_without_successful_call_on_live_container'] = sorted(f for f in pos_all if not pos_ok[f])
